@@ -221,8 +221,44 @@ def gen_file_cases(rng, n):
         for _ in range(rng.randrange(1, 8)):
             k = rng.randrange(3)
             ops.append(["next"] if k == 0 else ["pos"] if k == 1 else ["idx", rng.randrange(0, 4)])
-        cases.append({"k": "file", "data": data, "start": len(pre), "ops": ops})
+        cases.append({"k": "file", "data": data, "start": len(pre), "ops": ops,
+                      "recs": recs, "pad": pad, "garbage_after_records": bool(pad and pad[0] != 0)})
     return cases
+
+
+def file_oracle(c):
+    """what the property demands of FileMessageReader on a well-formed stream: the k-th record
+    at the sum of the preceding frame lengths; reading ends (error) at the first zero length or
+    at end of file; scripts stop at the first error.  None = not judged (garbage tail)."""
+    if c["garbage_after_records"]:
+        return None
+    frames = [frame(lcg_bytes(l, x)) for l, x in c["recs"]]
+    pos = c["start"]
+    i = 0
+    out = []
+    for op in c["ops"]:
+        if op[0] == "next":
+            if i >= len(frames):
+                out.append("err")
+                break
+            out.append({"m": digest(frames[i])})
+            pos += len(frames[i]); i += 1
+        elif op[0] == "pos":
+            if i >= len(frames):
+                out.append("err")
+                break
+            out.append({"p": pos, "l": len(frames[i])})
+            pos += len(frames[i]); i += 1
+        else:
+            k = op[1]
+            if i + k >= len(frames):
+                out.append("err")
+                break
+            for _ in range(k):
+                pos += len(frames[i]); i += 1
+            out.append({"p": pos, "l": len(frames[i])})
+            pos += len(frames[i]); i += 1
+    return out
 
 
 # ---------------------------------------------------------------- model expressions
@@ -391,6 +427,13 @@ def run(chk, replay=None):
         if got != want:
             chk.classify("chunking", "records decoded under chunking %s differ from the written ones" % c["lens"][:8],
                          {"suite": "codec", "case": c, "want": want, "got": got})
+
+    for c, r in zip(file_cases, impl_file):
+        want = file_oracle(c)
+        if want is not None and canon_fout_impl(r) != want:
+            chk.classify("file-reader", "FileMessageReader does not return the written records/positions: %s"
+                         % lib.diff_first(want, canon_fout_impl(r)),
+                         {"suite": "codec", "case": {k: c[k] for k in ("k", "data", "start", "ops")}, "want": want, "got": canon_fout_impl(r)})
 
     # ---- model
     try:
